@@ -46,7 +46,7 @@ def verify(d):
 
 
 def detect_one(sid):
-    d = VERIF / "seeded" / sid
+    d = pathlib.Path(os.environ.get("SEED_ROOT", str(VERIF / "seeded"))) / sid
     tmp = pathlib.Path(tempfile.mkdtemp(prefix="pfsa_seed_", dir="/var/tmp"))
     tier = os.environ.get("ST_TIER", "quick")
     try:
@@ -71,7 +71,7 @@ def detect_one(sid):
 
 
 def detect(ids):
-    root = VERIF / "seeded"
+    root = pathlib.Path(os.environ.get("SEED_ROOT", str(VERIF / "seeded")))
     ids = ids or sorted(p.name for p in root.iterdir() if (p / "patch.diff").exists())
     rows = []
     with cf.ThreadPoolExecutor(max_workers=4) as ex:
